@@ -24,6 +24,7 @@ VERIF = os.path.dirname(os.path.dirname(os.path.abspath(__file__)))
 CC_FLAGS = ["-DHAVE_CONFIG_H", "-I%s/include" % REPO, "-I%s/include/qb" % REPO,
             "-I%s/lib" % REPO, "-I%s/stubs" % VERIF, "-I%s/harness" % VERIF]
 TOTAL_MEM_GB = 52
+ENTRY_TIMEOUT_FLOOR = int(os.environ.get("VERIF_ENTRY_TIMEOUT", "900"))
 JOBS = int(os.environ.get("VERIF_JOBS", str(os.cpu_count() or 4)))
 
 
@@ -32,7 +33,7 @@ class Obl(object):
                  flags=None, timeout=600, mem_gb=8, paths=False, allow_fail=None,
                  bounds=None, units=None, stubs=None, kf=None, replay=True,
                  object_bits=None, checks="std", note="", assumptions=None,
-                 entry="harness", solver=None, expect_unreached=None, n_entries=0):
+                 entry="harness", solver=None, expect_unreached=None, n_entries=0, entries=None):
         self.name = name
         self.harness = harness
         self.defs = defs or []
@@ -58,6 +59,9 @@ class Obl(object):
         # n_entries > 0: the harness defines `void harness_scenario(int)`; the engine generates entry points
         # harness_0 .. harness_<n-1> (constant argument each) and decides each with its own CBMC run on the same binary
         self.n_entries = n_entries
+        # entries: the subset of scenario indices this obligation decides (None = all n_entries); lets one table be
+        # split into obligations that run on different cores
+        self.entries = entries
 
 
 # ----------------------------------------------------------------------------
@@ -432,8 +436,13 @@ def run_obligation(ob, work, extra_defs=(), want_trace_for=None, only_entries=No
             return res
         res["gb"] = gb
         idxs = list(range(ob.n_entries)) if ob.n_entries else []
+        if ob.n_entries and ob.entries is not None:
+            idxs = sorted(set(i for i in ob.entries if 0 <= i < ob.n_entries))
         if ob.n_entries and only_entries is not None:
-            idxs = sorted(set(i for i in only_entries if 0 <= i < ob.n_entries))
+            idxs = sorted(set(i for i in only_entries if i in idxs))
+        # per-scenario budget: a scenario that needs 2-100 s on an idle machine must not be reported as an
+        # infrastructure failure because the machine is loaded or slower; the budget only matters on a diverging tree
+        etimeout = max(ob.timeout, ENTRY_TIMEOUT_FLOOR)
         entries = ["harness_%d" % i for i in idxs] if ob.n_entries else [None]
         props, stats = [], None
         res["cbmc_s"] = 0.0
@@ -452,13 +461,22 @@ def run_obligation(ob, work, extra_defs=(), want_trace_for=None, only_entries=No
                 # cbmc's JSON (10-25 MB per scenario: every built-in check with its source location) is reduced by jq
                 # to the failed / property / witness entries plus per-class counts of the successful built-in checks,
                 # so that this (single-threaded) Python process does not parse gigabytes
-                f.write("#!/bin/bash\nfor i in %s; do\n" % " ".join(str(i) for i in idxs))
-                f.write("  timeout %d " % ob.timeout + " ".join("'%s'" % c for c in base).replace("@ENTRY@", "harness_$i").replace("'harness_$i'", "\"harness_$i\"") +
+                f.write("#!/bin/bash\nfor i in %s; do\n  t0=$(date +%%s.%%N)\n" % " ".join(str(i) for i in idxs))
+                f.write("  timeout %d " % etimeout + " ".join("'%s'" % c for c in base).replace("@ENTRY@", "harness_$i").replace("'harness_$i'", "\"harness_$i\"") +
                         " 2> '%s.err.'$i | jq -c -f '%s' > '%s.out.'$i\n" % (gb, jqf, gb))
-                f.write("  echo ${PIPESTATUS[0]} > '%s.rc.'$i\ndone\n" % gb)
+                f.write("  echo ${PIPESTATUS[0]} > '%s.rc.'$i\n" % gb)
+                f.write("  echo \"$i $(echo \"$(date +%%s.%%N) - $t0\" | bc)\" >> '%s.times'\n" % gb)
+                # a scenario that ran out of time makes the whole obligation undecided: do not spend the others' budget
+                f.write("  if [ \"$(cat '%s.rc.'$i)\" = 124 ]; then break; fi\ndone\n" % gb)
             res["cmd"] = " ".join(base[:1] + ["<gb>"] + base[2:])
-            rc, out, errt, dt, to = run(["bash", script], timeout=ob.timeout * len(idxs) + 60, mem_gb=ob.mem_gb)
+            rc, out, errt, dt, to = run(["bash", script], timeout=etimeout * len(idxs) + 60, mem_gb=ob.mem_gb)
             res["cbmc_s"] = round(dt, 2)
+            try:
+                res["entry_wall_s"] = {"harness_" + l.split()[0]: round(float(l.split()[1]), 1)
+                                       for l in open(gb + ".times").read().splitlines() if len(l.split()) == 2}
+                os.unlink(gb + ".times")
+            except (OSError, ValueError):
+                pass
             if to:
                 res["status"] = "timeout"
                 res["detail"] = "cbmc entry loop exceeded its budget"
@@ -472,7 +490,7 @@ def run_obligation(ob, work, extra_defs=(), want_trace_for=None, only_entries=No
                     o, e, r = "", str(ex), -1
                 if r == 124:
                     res["status"] = "timeout"
-                    res["detail"] = "cbmc exceeded %ds in entry %s" % (ob.timeout, ent)
+                    res["detail"] = "cbmc exceeded %ds in entry %s" % (etimeout, ent)
                     return res
                 outputs.append((ent, r, o, e))
                 for suffix in ("out", "err", "rc"):
@@ -587,7 +605,7 @@ def run_obligation(ob, work, extra_defs=(), want_trace_for=None, only_entries=No
 
 def trace_for(ob, gb, prop_id, entry=None):
     cmd = cbmc_cmd(ob, gb, trace=True, prop=prop_id, entry=entry)
-    rc, out, err, dt, to = run(cmd, timeout=ob.timeout * 2, mem_gb=ob.mem_gb)
+    rc, out, err, dt, to = run(cmd, timeout=(max(ob.timeout, ENTRY_TIMEOUT_FLOOR) if entry else ob.timeout) * 2, mem_gb=ob.mem_gb)
     if to:
         return None
     props, msgs, stats = parse_cbmc(out)
@@ -796,6 +814,7 @@ def run_check(pid, tier, obligations, meta):
                          "symex_s": r.get("stats", {}).get("symex_s"), "solver_s": r.get("stats", {}).get("solver_s"),
                          "program_steps": r.get("stats", {}).get("steps"), "sat_vars": r.get("stats", {}).get("vars"),
                          "sat_clauses": r.get("stats", {}).get("clauses"), "paths_or_solver_calls": r.get("stats", {}).get("paths"),
+                         "entry_wall_s": r.get("entry_wall_s"),
                          "detail": r["detail"][:300]} for ob, r in final],
             "solver_s": round(sum(r.get("stats", {}).get("solver_s", 0) or 0 for ob, r in final), 2),
             "symex_s": round(sum(r.get("stats", {}).get("symex_s", 0) or 0 for ob, r in final), 2),
